@@ -160,6 +160,7 @@ theorem WF_upd_leaf {pg : Pg κ} {root next : Nat} {g : Ghost κ} (wf : WF pg ro
     WF (upd pg p (.leaf es' b' r)) root next g where
   root := wf.root
   rng := wf.rng
+  lvl := wf.lvl
   int := by
     intro q l lo' hi' hq
     have hne : q ≠ p := by
